@@ -111,6 +111,12 @@ def run(chk):
         '_parse_glycan_formula, _glycan_comp, glycan_mass; the two tokenizer regexes are hand-written scanners; '
         'not modelled: precision rounding, float repr outside positional notation, non-ASCII digits/whitespace',
     ]
+    from ..reach_c10 import Reach
+    from peptacular import mass_calc as MC, glycan as GL, util as UT
+    reach = Reach([CU.parse_chem_formula, CU.write_chem_formula, CU.chem_mass, CU._split_chem_formula, CU._parse_isotope_component,
+                   CU._parse_condensed_chem_formula, CU._parse_split_chem_formula, S._parse_glycan_formula, S._glycan_comp,
+                   GL.write_glycan_formula, GL.glycan_comp, GL.parse_glycan_formula, MC.glycan_mass, UT.convert_type])
+    reach.start()
     iso_keys = list(K.ISOTOPIC_ATOMIC_MASSES.keys())
     plain = [k for k in iso_keys if not k[0].isdigit() and k not in ('D', 'T')]
     isos = [k for k in iso_keys if k[0].isdigit()]
@@ -219,7 +225,7 @@ def run(chk):
         except Exception:  # noqa
             pass
     comps_in = list(dict.fromkeys(comps_in))
-    chk.correspond('_parse_condensed_chem_formula', DRV, [c for c in comps_in if not c.startswith('[')],
+    chk.correspond('_parse_condensed_chem_formula', DRV, [c for c in comps_in if not c.startswith('[')] + [''],
                    lambda s: f'condensed\t{enc(s)}', lambda s: show_impl_comp(lambda: CU._parse_condensed_chem_formula(s)),
                    compare=lambda a, b: cmp_comp(a, b, ordered=True), nontrivial_fn=lambda c, im: isinstance(im, list) and len(im) >= 2)
     chk.correspond('_parse_isotope_component', DRV, [c[1:-1] for c in comps_in if c.startswith('[')] + ['13C6', 'D6', '13C-6', '13C', '13Ce333', '13Ce1.3', '', '12323', '13C-', 'T2C3', '6', 'C6x'],
@@ -441,6 +447,12 @@ def run(chk):
 
     chk.oracle('glycan_roundtrip_linear', glys if big else glys[::2], o_glycan, nontrivial_fn=lambda g: len(g) >= 2, key_fn=repr)
     lap('oracle')
+    rep = reach.stop()
+    if rep is not None:
+        chk.count('reach_modelled_lines', rep['lines'])
+        chk.count('reach_modelled_lines_executed', rep['executed'])
+        chk.notes.append('reach: lines of the modelled functions not executed by this run: ' +
+                         (json.dumps(rep['uncovered']) if rep['uncovered'] else 'none'))
     if tier == 'thorough':
         chk.leanchecker(['PeptVerif.Props.C15', 'PeptVerif.Props.C15Glycan', 'PeptVerif.Lemmas.NumSpec', 'PeptVerif.Lemmas.NumText',
                          'PeptVerif.Lemmas.FormulaRT', 'PeptVerif.Lemmas.GlycanRT', 'PeptVerif.Model.Formula'])
